@@ -6,6 +6,8 @@ import os
 from harness import core
 
 KEYS = ["k1", "k2", "k3"]
+# every data member Repeater.__init__ creates (= Builtin of spec/Storage.tla)
+BUILTIN = ["address_in", "address_out", "address_nat", "callsign", "serial", "dmr_id", "snmp_enabled", "nat_enabled"]
 NONEV = {"t": "n", "s": "", "ip": "", "port": 0}
 
 
@@ -23,6 +25,10 @@ def dec(v):
     if v["t"] == "a":
         return (v["ip"], v["port"])
     return v["s"]
+
+
+def builtin_of(r):
+    return {k: enc(getattr(r, k, None)) for k in BUILTIN}
 
 
 class Sut:
@@ -56,8 +62,7 @@ class Sut:
         for r in self.st.all():
             out.append({
                 "id": self.idx(r),
-                "f": {"address_in": enc(r.address_in), "address_out": enc(r.address_out),
-                      "callsign": enc(r.callsign)},
+                "f": builtin_of(r),
                 "attrs": {k: enc(r.attr(k)) for k in KEYS},
             })
         return out
@@ -69,7 +74,7 @@ class Sut:
         ev = []
         for n, rec in enumerate(recs):
             ev.append(self.apply(act("match_incoming", addr=("setup%d" % n, 10_000 + n), auto=True)))
-            patch = [(k, dec(rec["f"][k])) for k in ("address_in", "address_out", "callsign")]
+            patch = [(k, dec(rec["f"][k])) for k in BUILTIN]
             patch += [(k, dec(v)) for k, v in rec["attrs"].items() if v["t"] != "n"]
             ev.append(self.apply(act("patch", id=n + 1, patch=patch)))
         self.sync()
@@ -142,13 +147,17 @@ def random_history(rng, n):
         def rpatch():
             p = []
             for _ in range(rng.choice([0, 0, 1, 1, 2, 3])):
-                k = rng.choice(["callsign", "address_out", "address_in"] + KEYS + KEYS)
-                if k in ("address_out", "address_in"):
+                k = rng.choice(BUILTIN + KEYS * 3)
+                if k in ("address_out", "address_in", "address_nat"):
                     if k == "address_in" and rng.random() < 0.7:
                         continue
                     v = rng.choice(addrs)
-                elif k == "callsign":
+                elif k in ("callsign", "serial"):
                     v = rng.choice(strs + [None])
+                elif k == "dmr_id":
+                    v = rng.choice([0, 1, 2300001, None])
+                elif k in ("snmp_enabled", "nat_enabled"):
+                    v = rng.choice([True, False, None])
                 else:
                     v = rng.choice(["x", "y", "z", None])
                 if all(k != k0 for k0, _ in p):  # a dict has one value per key
